@@ -34,6 +34,7 @@ pub struct IndexPacketHeader {
 
 impl IndexPacketHeader {
     pub const ID: u8 = 0;
+    pub const SIZE: u64 = 16;
 
     pub fn read(reader: &mut dyn Read) -> Result<Self> {
         let mut buffer = [0_u8; 15];
@@ -127,6 +128,7 @@ pub struct IgnoredPacketHeader {
 
 impl IgnoredPacketHeader {
     pub const ID: u8 = 2;
+    pub const SIZE: u64 = 4;
 
     pub fn read(reader: &mut dyn Read) -> Result<Self> {
         // Read Ignored Packet
